@@ -151,6 +151,48 @@ def scn_sequence(kind, order, with_inv=True, with_mu=True, update=("inv", "mu"),
     return scn
 
 
+def scn_sequence_views(kind, through, order, K=3):
+    """as scn_sequence, with the parameters of the model held as VIEWS of one packed vector [shape, inv, mu] (what the command line
+    builds for partitioned data), the new values assigned through: 'own' the model's own views, 'parent' the packed parameter,
+    'block' another view that overlaps all three, 'sibling' views created separately over the same entries"""
+    def scn(mk):
+        from torchtree.core.parameter import Parameter, ViewParameter
+        from torchtree.evolution.site_model import InvariantSiteModel, WeibullSiteModel
+        v1 = [mk.real("shape1", (1,), lo=0), mk.real("inv1", (1,), lo=0, hi=1, lo_incl=True), mk.real("mu1", (1,), lo=0)]
+        v2 = [mk.real("shape2", (1,), lo=0), mk.real("inv2", (1,), lo=0, hi=1, lo_incl=True), mk.real("mu2", (1,), lo=0)]
+        cat = (lambda xs: torch.cat(xs, -1))
+        parent = Parameter("packed", cat(v1))
+        own = [ViewParameter("v%d" % i, parent, slice(i, i + 1)) for i in range(3)]
+
+        def build(ps_, pi_, pm_):
+            if kind == "invariant":
+                return InvariantSiteModel("sm", pi_, pm_)
+            return WeibullSiteModel("sm", ps_, K, pi_, pm_)
+        m = build(*own)
+        m.rates(), m.probabilities()
+        if through == "own":
+            for v, new in zip(own, v2):
+                v.tensor = new
+        elif through == "parent":
+            parent.tensor = cat(v2)
+        elif through == "block":
+            ViewParameter("block", parent, slice(0, 3)).tensor = cat(v2)
+        else:
+            for i, new in enumerate(v2):
+                ViewParameter("s%d" % i, parent, slice(i, i + 1)).tensor = new
+        got = {}
+        for ch in order:
+            got[ch] = m.rates() if ch == "r" else m.probabilities()
+        rates = got.get("r", m.rates())
+        probs = got.get("p", m.probabilities())
+        fresh = build(Parameter("shape_f", v2[0]), Parameter("inv_f", v2[1]), Parameter("mu_f", v2[2]))
+        cl = _claims(mk, rates, probs, v2[2], v2[1])
+        cl.append(("eq", "rates_are_those_of_a_fresh_model_at_the_current_values", mk.lift(rates), mk.lift(fresh.rates())))
+        cl.append(("eq", "probabilities_are_those_of_a_fresh_model_at_the_current_values", mk.lift(probs), mk.lift(fresh.probabilities())))
+        return cl
+    return scn
+
+
 def obligations(tier, seed):
     obs = []
     META["exhaustive"] = (tier == "thorough")   # K = 1..16 is enumerated completely only in the thorough tier
@@ -175,6 +217,11 @@ def obligations(tier, seed):
                     for K_ in ((1, 3) if tier == "quick" else (1, 2, 3, 4)):
                         add("C05.sequence.weibull[K=%d,inv=%s,mu=%s,update %s then %s]" % (K_, with_inv, with_mu, "+".join(up), order), "scn_sequence",
                             ("weibull", order, with_inv, with_mu, up, K_), "postconditions hold for the current values after an update, in any request order")
+    for kind in ("invariant", "weibull"):
+        for through in ("own", "parent", "block", "sibling"):
+            for order in ("rp", "pr"):
+                add("C05.sequence.views.%s[assigned through %s, then %s]" % (kind, through, order), "scn_sequence_views", (kind, through, order),
+                    "postconditions hold for the current values when the parameters are views of a shared vector")
     for with_mu in (False, True):
         for up in (("inv",),) + ((("mu",), ("inv", "mu")) if with_mu else ()):
             for order in ("rp", "pr", "r", "p"):
